@@ -34,6 +34,7 @@
 // output: one line per op: `<head>[ ; tok tok ...]`, tokens in order of occurrence:
 //   c<j>:<act>[=..] coroutine j executed that action, c<j>:end finished;  cb<i> callback of F_i fired;
 //   a:<cat>+<n> allocation, f:<cat>-<n> release;  cat = frame (n = 1), growth (n = cells of the handle array),
+//   resolve-suspend-point-growth (the same, for the suspend point a resolution collects the released coroutines in),
 //   ready-queue-node (n = bytes; allocations made by the thread-local std::deque of coro_queue), other (n = bytes)
 #include <algorithm>
 #include <atomic>
@@ -76,8 +77,8 @@
 // ------------------------------------------------------------------------------------------------
 namespace al {
 
-enum Cat { FRAME, GROWTH, RQ, OTHER };
-static const char *cat_name[] = {"frame", "growth", "ready-queue-node", "other"};
+enum Cat { FRAME, GROWTH, RGROWTH, RQ, OTHER };
+static const char *cat_name[] = {"frame", "growth", "resolve-suspend-point-growth", "ready-queue-node", "other"};
 
 struct Blk { Cat cat; long n; };
 
@@ -85,6 +86,10 @@ struct Blk { Cat cat; long n; };
 static thread_local int measuring = 0;     // > 0: inside the measured region
 static thread_local int guard = 0;         // > 0: the harness's own bookkeeping is running: not logged
 static thread_local bool in_hook = false;  // the log's own containers allocate
+// a handle array allocated while a resolution (promise call / drop / destructor, bound callable, final_suspend of a bound
+// coroutine) collects the released coroutines is `resolve-suspend-point-growth`; any other handle array is `growth`
+static thread_local int in_resolution = 0;      // the harness is inside a call that resolves a future
+static thread_local bool final_window = false;  // a coroutine body has reached co_return; closed by the next script action
 static thread_local int expect_frame = 0;  // the harness is calling a coroutine function: the next plain `new` is its frame
 static std::mutex *mtx = nullptr;
 static std::vector<std::string> *evs = nullptr;
@@ -103,7 +108,8 @@ static void tok(const char *s) {
     hook h;
     evs->push_back(s);
 }
-static void tokf(const char *fmt, int a, const char *b, long c = 0) {
+static void tokf(const char *fmt, int a, const char *b, long c = 0, bool from_script = true) {
+    if (from_script) final_window = false;
     char buf[96];
     std::snprintf(buf, sizeof buf, fmt, a, b, c);
     tok(buf);
@@ -121,7 +127,8 @@ static void *do_new(std::size_t sz, bool array) {
     if (!p) throw std::bad_alloc();
     if (!in_hook && live && measuring > 0 && guard == 0) {
         if (array) {
-            if (sz % sizeof(void *) == 0) note_alloc(p, GROWTH, (long)(sz / sizeof(void *)), true);
+            if (sz % sizeof(void *) == 0)
+                note_alloc(p, (in_resolution > 0 || final_window) ? RGROWTH : GROWTH, (long)(sz / sizeof(void *)), true);
             else note_alloc(p, OTHER, (long)sz, true);
         } else if (expect_frame > 0) {
             --expect_frame;
@@ -347,7 +354,12 @@ struct Runner {
     }
 
     // ---- resolution by kind; returns the suspend point ---------------------------------------------
+    struct rctx {
+        rctx() { ++al::in_resolution; }
+        ~rctx() { --al::in_resolution; }
+    };
     static suspend_point<bool> resolve(promise<VT> &p, char kind, int i, std::exception_ptr &e) {
+        rctx c;
         if (kind == 'v') return p(VT(100 + i));
         if (kind == 'e') return p(e);
         return p(drop);
@@ -364,7 +376,7 @@ struct Runner {
         void await_resume() noexcept {}
     };
 
-    static void cb_fn_log(int i) { al::tokf("cb%d%s", i, ""); }
+    static void cb_fn_log(int i) { al::tokf("cb%d%s", i, "", 0, false); }
     static suspend_point<void> cb_fn(awaiter *, void *ctx) noexcept {
         cb_fn_log((int)(reinterpret_cast<std::intptr_t>(ctx)));
         return {};
@@ -453,6 +465,7 @@ struct Runner {
         }
         al::tokf("c%d:end%s", id, "");
         R->cos[id].st = DONE;
+        al::final_window = true;   // what follows: destruction of the locals, final_suspend (resolves the bound future)
         co_return VT(1000 + id);
     }
 
@@ -493,7 +506,7 @@ struct Runner {
         measured m;
         if (kind == 'x') {
             bool valid = static_cast<bool>(f.p);
-            { promise<VT> victim(std::move(f.p)); }
+            { rctx c; promise<VT> victim(std::move(f.p)); }
             return valid ? "1 n=-" : "0 n=-";
         }
         suspend_point<bool> sp = resolve(f.p, kind, i, exc);
@@ -626,7 +639,7 @@ struct Runner {
         Fut &f = futs[i];
         if (!f.bsize) return "skip";
         measured m;
-        suspend_point<bool> sp = call_any(f);
+        suspend_point<bool> sp = [&] { rctx c; return call_any(f); }();
         bool won = sp;
         std::size_t n = sp.size();
         {
@@ -635,6 +648,7 @@ struct Runner {
         }
     }
     void kill_bound(Fut &f) {
+        rctx c;
         kill_any(f);
         f.bsize = 0;
     }
@@ -799,7 +813,7 @@ struct Runner {
             for (int k = 0; k < NMX; k++)
                 if (main_own[k]) { main_own[k].release(); progress = true; }
             for (int i = 0; i < MAXID; i++)
-                if (futs[i].existed && futs[i].p) { futs[i].p(drop); progress = true; }
+                if (futs[i].existed && futs[i].p) { resolve(futs[i].p, 'd', i, exc); progress = true; }
             for (int i = 0; i < MAXID; i++)
                 if (futs[i].bsize) { kill_bound(futs[i]); progress = true; }
             for (int j = 0; j < MAXID; j++)
@@ -871,6 +885,7 @@ struct Runner {
     std::string end_head = "left=?";
 
     static void flush_line(const std::string &head, std::vector<std::string> &out) {
+        al::final_window = false;
         al::hook hk;
         std::string s = head;
         if (!al::evs->empty()) {
